@@ -7,6 +7,7 @@ import OPModel.Drive.C05
 import OPModel.Drive.C07
 import OPModel.Drive.C20
 import OPModel.Drive.C03
+import OPModel.Drive.C02
 
 open OP
 
@@ -20,6 +21,7 @@ def handle (line : String) : String :=
   | "pockets" :: args => Drive.pockets args
   | "entu" :: args => Drive.entu args
   | "assign" :: args => Drive.assign args
+  | "site" :: args => Drive.site args
   | "pinch" :: args => Drive.pinch args
   | "pincht" :: args => Drive.pincht args
   | _ => "bad-op"
